@@ -65,7 +65,11 @@ class Formatter:
 
     _FORMAT_RE: re.Pattern[str] = re.compile(_TOKENS)
 
-    _FROM_FORMAT_RE: re.Pattern[str] = re.compile(r"(?<!\\\[)" + _TOKENS + r"(?!\\\])")
+    # Applied to the escaped format: a bracketed literal there reads \\[text\\]
+    # and is kept whole so that the letters inside it are not taken for tokens.
+    _FROM_FORMAT_RE: re.Pattern[str] = re.compile(
+        r"\\\[(?:(?!\\\[).)*\\\]|" + _TOKENS
+    )
 
     _LOCALIZABLE_TOKENS: ClassVar[
         dict[str, str | Callable[[Locale], Sequence[str]] | None]
@@ -671,8 +675,8 @@ class Formatter:
             raise ValueError("Invalid date")
 
     def _replace_tokens(self, token: str, locale: Locale) -> str:
-        if token.startswith("[") and token.endswith("]"):
-            return token[1:-1]
+        if token.startswith("\\[") and token.endswith("\\]"):
+            return token[2:-2]
         elif token.startswith("\\"):
             if len(token) == 2 and token[1] in {"[", "]"}:
                 return ""
